@@ -118,8 +118,11 @@ Definition bench_react (b : bench) (c : cmsg) : list cmsg :=
   | CMSource src v => map cm_of_delivery (conn_deliveries (nth src (bsources b) []) v)
   end.
 
-(* the fragment: scripts made of sends and queries only, every model part of the simulation *)
-Definition op_plain (o : op) : bool := match o with OSend _ _ | OQuery _ _ => true | _ => false end.
+(* the fragment: scripts made of sends, queries and scheduling requests (a request only adds to the
+   scheduler queue: it sends nothing in the current call), every model part of the simulation; no
+   cancellation (whether a cancelled event is still processed depends on the schedule), no panic *)
+Definition op_plain (o : op) : bool :=
+  match o with OSend _ _ | OQuery _ _ | OSched _ _ _ _ _ => true | _ => false end.
 Definition model_plain (sp : mspec) : bool :=
   match mplace sp with Added => true | _ => false end &&
   forallb op_plain (minit sp) && forallb (forallb op_plain) (mhandlers sp) &&
@@ -160,7 +163,10 @@ Definition pool_of (b : bench) (s : state) : list cmsg :=
 
 (* scripts in flight: sends, queries, and the single op of an action task *)
 Definition cop_ok (o : op) : bool :=
-  match o with OSend _ _ | OQuery _ _ | OEvent _ _ _ _ | OReq _ _ _ | OBcast _ _ => true | _ => false end.
+  match o with
+  | OSend _ _ | OQuery _ _ | OSched _ _ _ _ _ | OEvent _ _ _ _ | OReq _ _ _ | OBcast _ _ => true
+  | _ => false
+  end.
 
 Definition invs (l : list entry) : list cmsg := flat_map cm_of_entry l.
 
